@@ -259,7 +259,8 @@ func history(x *mon.Ctx) {
 	curves := []struct {
 		name string
 		c    elliptic.Curve
-	}{{"nist-p256", elliptic.P256()}, {"generic-sm2-copy", genericSM2}, {"nist-p384", elliptic.P384()}, {"nist-p224", elliptic.P224()}}
+	}{{"nist-p256", elliptic.P256()}, {"generic-sm2-copy", genericSM2}, {"nist-p384", elliptic.P384()}, {"nist-p224", elliptic.P224()},
+		{"nist-p521", elliptic.P521()}, {"secp160r1-custom", lcurvesAll[6].c}}
 	for ci, cv := range curves {
 		for _, bs := range badScalars {
 			for si, seq := range seqs {
@@ -284,6 +285,29 @@ func history(x *mon.Ctx) {
 				c.End()
 			}
 		}
+	}
+	// a parameter set whose order is zero (a half-initialised elliptic.CurveParams): every scalar is "n-1 or above";
+	// the operations must fail by returning (a reduction modulo the order would divide by zero)
+	for si, seq := range seqs {
+		if (si+int(x.Seed%7))%x.Scale(18, 3) != 0 {
+			continue
+		}
+		c := x.Begin("history legacy zero-order parameter set ops=[%s]", seqName(seq))
+		if c == nil {
+			continue
+		}
+		c.Class("legacy/zero-order/ops=%d-%d-%d", seq[0], seq[1], seq[2])
+		base := curves[1+c.R.Intn(len(curves)-1)]
+		pp := *base.c.Params()
+		pp.N = new(big.Int)
+		pp.Name = base.name + "-with-zero-order"
+		dName := []string{"1", "random", "2^64"}[c.R.Intn(3)]
+		d := map[string]*big.Int{"1": big64(1), "random": new(big.Int).SetBytes(c.R.Bytes(24)), "2^64": new(big.Int).Lsh(one, 64)}[dName]
+		ek := &ecdsa.PrivateKey{D: d}
+		ek.Curve = &pp
+		ek.X, ek.Y = new(big.Int).Set(pp.Gx), new(big.Int).Set(pp.Gy)
+		playHistory(c, pp.Name, dName, &sm2.PrivateKey{PrivateKey: *ek}, ek, seq, histBudget/4)
+		c.End()
 	}
 }
 
